@@ -17,7 +17,7 @@ PROPS = {
         "design_ref": "DESIGN.md §4 C41",
         "rule": "case = (class, threads, diagnostics on/off, growth forced, generated program); non-trivial = at least two allocations and one release happened; distinct by full spec incl. program hash",
         "required_classes": ["class:4", "class:8", "class:16", "class:32", "class:64", "class:128", "class:256", "fallback-class", "threads:1", "threads:4",
-                             "cross-thread-free", "thread-exit", "diag-concurrent", "slab-growth", "diag-during-growth", "gate-reached"],
+                             "cross-thread-free", "thread-exit", "diag-concurrent", "slab-growth", "diag-during-growth", "gate-reached", "diag-gate-reached"],
         "assumptions": _A,
         "runs": {
             "quick": [{"config": "plain", "shards": 16, "args": {"n": 384, "gates": 32}}, {"config": "tsan", "shards": 16, "args": {"n": 96, "gates": 16, "scale": 40}},
